@@ -117,6 +117,16 @@ func runC16(t *testing.T, e *worlds.Env, tier string) (bool, any) {
 			sample.Model = "configuration refused: " + err.Error()
 			return func() bool { return true }
 		}
+		if tp.Prob(1, 4, "other-handler") {
+			// another socks5 handler of the same process, provisioned later with other commands and
+			// credentials (a second route, or the configuration after a reload): what it allows is its own business
+			other := &l4socks.Socks5Handler{Commands: []string{"CONNECT", "ASSOCIATE", "BIND"}, Credentials: map[string]string{"zed": "zed"}}
+			if tp.Prob(1, 2, "other-noauth") {
+				other.Credentials = nil
+			}
+			_ = other.Provision(e.Ctx)
+			sample.Model += "(another handler provisioned afterwards) "
+		}
 		valid := map[string]string{}
 		for k, v := range creds {
 			if k == "{env.VERIF_SOCKS_USER}" {
